@@ -308,6 +308,7 @@ class C10(common.Check):
         sched = common.key_hash(tr.schedule)
         n_api = sum(1 for o in case["ops"] if o["op"] in ("protect", "unprotect"))
         return {"viol": viol, "digest": tr.world.digest(), "key": common.key_hash([case, sched]) if n_api >= 2 else None, "sched_key": sched if tr.schedule else None,
+                "replay_pref": conc >= 2,  # several concurrent groups = several event loops / thread groups inside one case
                 "fired": {"sched_choice_points": st.get("choice_points", 0), "seg": st.get("seg", 0), "clk": st.get("clk", 0), "noconn": st.get("noconn", 0),
                           "slowconn": st.get("slowconn", 0), "cancel": st.get("cancel", 0), "thread_preemptions": st.get("tswitch", 0)},
                 "probes": probes, "vtime_ns": st.get("vtime_ns", 0)}
